@@ -118,5 +118,18 @@ def register(claim, na):
           "fields; CLI stage order and kind table. What a glob matches is not decided.",
           "trusts the ignore crate's Gitignore::matched; the monotonicity clause is decided structurally (ignore patterns can only yield false)",
           "DESIGN.md section 5 C11")
-    for p in ["C05", "C12", "C14"]:
-        na(p, PENDING)
+    claim("C05", "other", "THIR path enumeration of the CLI's busy-decision coroutine and of the queued-start task (mode -> effect table with argument provenance), structural rules on the run_async placement, the skip condition (boolean implication), the shorthands and the kick-off",
+          "Decides the decision table on every path: what each --on-busy-update mode does when running and when idle, with the right signal / timeout "
+          "arguments; that the decision reads the job's state inside the job task; the queue guard and ordering of the queued task; shorthands; kick-off; "
+          "single job id; that only batches without a path and without the synthetic event are skipped. Freshness and overlap under real timings are not decided.",
+          "non-overlap is delegated to C04 + the single job id; the Job API table is shared with C09/C10", "DESIGN.md section 5 C05")
+    claim("C12", "other", "THIR path enumeration of WatchexecFilterer::new and dirs::ignores over all branch values of the discovery flags (path-level, so all 64 combinations at once); ordering rule 'explicit entries appended after every flag-guarded filter'",
+          "Decides on every path: the explicit options are consumed whatever the flags are, --ignore-file entries are loaded either through "
+          "explicit_ignore_files() or at the end of dirs::ignores() after all flag-guarded filters, each flag guards exactly its source, --ignore-nothing "
+          "sets all five flags, and the CLI filter cannot pass an event before the --fs-events stage. What patterns match is not decided.",
+          "trusts clap's parsing of the options and the ignore/globset matchers", "DESIGN.md section 5 C12")
+    claim("C14", "other", "THIR path enumeration of visit_path (gates for Find and an exact outcome table per directory entry), of from_origin's Find arm (found => filter updated before the next lookup), guard analysis of find_file, cross-crate marker-directory table, crate-wide lint against string-prefix tests on rendered paths",
+          "Decides: files are recorded only for regular non-empty files; a directory is searched only past the skip list, check_dir and the two-way watch "
+          "relation; directory entries are pruned/queued exactly in the five documented cases; each found file updates the walk's filter before the next "
+          "lookup; the name/VCS tables; VCS metadata directories are skipped; no string-prefix path comparison. Exactness over all trees inherits the matcher.",
+          "trusts tokio::fs read_dir/metadata and the C03 matcher", "DESIGN.md section 5 C14")
